@@ -115,10 +115,65 @@ impl Prop for C04 {
         }
     }
     fn required_probes(&self, _tier: Tier) -> Vec<&'static str> {
-        vec!["header_only_at_occupied", "header_only_beyond_tip", "competitor_sorts_earlier", "competitor_sorts_later", "competitor_beyond_tip", "reorged_branch_len_ge_2", "no_competitor_baseline", "active_records_without_undo_flag"]
+        vec!["header_only_at_occupied", "header_only_beyond_tip", "competitor_sorts_earlier", "competitor_sorts_later", "competitor_beyond_tip", "reorged_branch_len_ge_2", "no_competitor_baseline", "active_records_without_undo_flag", "active_block_unreadable_where_a_competitor_is_stored", "index_beyond_2_pow_19_records"]
     }
-    fn explore(&self, item: u64, rng: &mut Rng, _tier: Tier, h: &mut Harness) -> Result<(), String> {
+    fn explore(&self, item: u64, rng: &mut Rng, tier: Tier, h: &mut Harness) -> Result<(), String> {
         let coin = COINS[(item % 8) as usize];
+        if item == 1499 || (tier == Tier::Thorough && item == 19999) {
+            // an index as large as a real one is counted in records (beyond 2^19): the last six active blocks
+            // have hashes at the top of the key order, each has a stale competitor with data whose hash is at
+            // the bottom of it (sorts earlier: must lose)
+            let mut scn = new_scenario("C04", "big-index", coin);
+            let n = (1usize << 19) + rng.usize(8, 300);
+            scn.chain = marker_chain(0, n, rng);
+            let head = {
+                let mut tmp = new_scenario("C04", "tmp", coin);
+                tmp.chain = scn.chain[..n - 6].to_vec();
+                build_all(&tmp).active.last().map(|b| b.hash).unwrap_or([0; 32])
+            };
+            let mut prev = head;
+            for i in n - 6..n {
+                loop {
+                    let bb = build_block(&scn.chain[i], prev);
+                    if bb.hash[0] >= 0xe0 {
+                        prev = bb.hash;
+                        break;
+                    }
+                    scn.chain[i].nonce = scn.chain[i].nonce.wrapping_add(1);
+                }
+            }
+            let mut lay = single_file_layout(n);
+            for k in 0..6usize {
+                let hh = (n - 6 + k) as u64;
+                let mut b = competitor_block(k, hh, rng);
+                loop {
+                    let bb = build_block(&b, [0x11; 32]);
+                    if bb.hash[0] <= 0x0f {
+                        break;
+                    }
+                    b.nonce = b.nonce.wrapping_add(1);
+                }
+                b.prev = Some(Bytes(vec![0x11; 32]));
+                scn.extras.push(ExtraBlock {
+                    block: b,
+                    kind: "stale-unconnected-data".into(),
+                    index: Some(ExtraIndex { height: hh, status: 3 | 8 }),
+                    parent_height: None,
+                    parent_extra: None,
+                });
+                lay.files[0].segs.push(Seg::Extra { i: k });
+            }
+            scn.layouts = vec![lay];
+            scn.index = index_opts(rng);
+            scn.index.storage = "flush".into();
+            let mut r = RunSpec::new("csvdump");
+            r.start = Some(n as u64 - 7);
+            r.threads = 4;
+            scn.runs = vec![r];
+            h.stats.probe("index_beyond_2_pow_19_records");
+            h.check(&mut scn)?;
+            return Ok(());
+        }
         let mut scn = new_scenario("C04", "forks", coin);
         let nb = rng.usize(2, 12);
         scn.chain = marker_chain(0, nb, rng);
@@ -185,6 +240,58 @@ impl Prop for C04 {
             r.threads = 2;
             scn.runs.push(r);
         }
+        // the active block of a height that also has an (earlier-sorting, hence ignored) data-bearing
+        // competitor is unreadable — its blk file is gone while the competitor's is there: the run has to
+        // fail; what it must not do is deliver the competitor instead
+        if rng.chance(1, 6) {
+            let built = build_all(&scn);
+            let cand: Vec<u64> = scn
+                .extras
+                .iter()
+                .enumerate()
+                .filter_map(|(xi, x)| {
+                    let ix = x.index.as_ref()?;
+                    if ix.status & 8 != 0 && ix.height <= t && built.extras[xi].hash < built.active[ix.height as usize].hash {
+                        Some(ix.height)
+                    } else {
+                        None
+                    }
+                })
+                .collect();
+            if let Some(hh) = cand.first().copied() {
+                // one block per file, competitors in files of their own
+                let mut files: Vec<BlkFileDesc> = (0..nb)
+                    .map(|i| BlkFileDesc {
+                        number: i as u64,
+                        width: 5,
+                        segs: vec![Seg::Active { i }],
+                        symlink: false,
+                    })
+                    .collect();
+                for (xi, x) in scn.extras.iter().enumerate() {
+                    if x.index.as_ref().map(|ix| ix.status & 8 != 0).unwrap_or(false) {
+                        files.push(BlkFileDesc {
+                            number: (nb + xi) as u64,
+                            width: 5,
+                            segs: vec![Seg::Extra { i: xi }],
+                            symlink: false,
+                        });
+                    }
+                }
+                scn.layouts = vec![Layout {
+                    files,
+                    xor_key: None,
+                    magic_mode: 0,
+                    xor_symlink: false,
+                    extra_files: vec![],
+                }];
+                for r in scn.runs.iter_mut() {
+                    r.disk_faults = vec![DiskFault::RemoveFile { height: hh }];
+                }
+                scn.family = "active-unreadable".into();
+                h.stats.probe("active_block_unreadable_where_a_competitor_is_stored");
+            }
+        }
         h.check(&mut scn)?;
         Ok(())
     }
@@ -234,7 +341,9 @@ impl Prop for C04 {
         let mut csv_clean = false;
         if let Some(ci) = ci {
             let o = &outs[ci];
-            if !o.exit.ok() {
+            if !o.exit.ok() && !scn.runs[ci].disk_faults.is_empty() {
+                // expected: the active block of that height cannot be read
+            } else if !o.exit.ok() {
                 // a competitor may also make the run fail (e.g. its data unreadable): not a delivery, but the active chain was not delivered either
                 v.push(viol("C04/run-failed", format!("exit {:?}: {}", o.exit, super::c01::tail(&o.stderr_str()))));
             } else {
@@ -276,7 +385,8 @@ impl Prop for C04 {
         }
         // the other callback: no competitor marker may appear
         for (r, o) in scn.runs.iter().zip(outs.iter()) {
-            if r.callback == "csvdump" || !o.exit.ok() {
+            let faulted = !r.disk_faults.is_empty();
+            if (r.callback == "csvdump" && !faulted) || (!o.exit.ok() && !faulted) {
                 continue;
             }
             let mut hay = o.stdout_str();
@@ -296,7 +406,7 @@ impl Prop for C04 {
                     }
                 }
             }
-            if csv_clean {
+            if csv_clean && !faulted {
                 for x in compare_with_model("C04", m, r, o, &CmpOpts { addr: true, decimals: false }, st) {
                     v.push(viol(format!("C04/{}/output-differs-from-active-chain", r.callback), x.detail));
                 }
